@@ -12,6 +12,7 @@
     state  = (automaton state q, log of executed calls)
     gate   = list of q.n.c   (c = 0: `_get_attribute` returns the method; otherwise the id of the AttributeError it
              raises; a (q, n) that is not listed is a missing attribute = exception 102)
+    name 12 = `acc`: appends its argument id to an internal list and returns that list (value 1000 + accCode), see tabObj
     bad    = argument ids whose (args, kwargs) do not fit the method signature: TypeError (exception 100) is
              raised by the call itself, before the body runs — nothing is logged, the state is unchanged
     rows   = list of q.n.a.q2.k.v : in state q, method n with argument a moves to q2 and returns value v (k = o)
@@ -31,6 +32,14 @@ structure Tab where
 
 abbrev RefSt := Nat × List (Nat × Nat)
 
+/-- name id of the reference object's `acc` method (returns a live reference to its internal list) -/
+def accName : Nat := 12
+
+/-- a list of argument ids as one number (little endian, base 7, digits a+1) -/
+def accCode : List Nat → Nat
+  | [] => 0
+  | a :: rest => (a + 1) + 7 * accCode rest
+
 def tabObj (t : Tab) : Obj RefSt Nat Nat Nat Nat where
   gate := fun s n =>
     match t.gate.find? (fun g => g.1 == s.1 && g.2.1 == n) with
@@ -39,6 +48,11 @@ def tabObj (t : Tab) : Obj RefSt Nat Nat Nat Nat where
     | none => some 102
   apply := fun s n a =>
     if t.bad.contains a then (s, .exc 100)
+    else if n == accName then
+      -- Ref.acc: `self.items.append(marker a); return self.items` — the items are the arguments of the logged acc calls;
+      -- one by one the caller gets the list AS IT IS AT CALL TIME (value 1000 + accCode of it); q is untouched
+      let log := s.2 ++ [(n, a)]
+      ((s.1, log), .ok (1000 + accCode ((log.filter (fun p => p.1 == accName)).map (·.2))))
     else
       let log := s.2 ++ [(n, a)]
       match t.rows.find? (fun r => r.1 == s.1 && r.2.1 == n && r.2.2.1 == a) with
